@@ -134,7 +134,7 @@ class M:
                     v = self.rng.uniform(0.5, 2.0, size=shape)
                 else:
                     v = sample(self.rng, shape)
-                v = np.round(np.asarray(v, dtype=float), 3)
+                v = np.vectorize(lambda x: float("%.4g" % x))(np.asarray(v, dtype=float))  # 4 significant digits (short exact rationals)
                 self.values[name] = v if shape != () else float(v)
             v = self.values[name]
             a = const(v) if self.mode == "const" else (np.array(v, dtype=float) if shape != () else float(v))
@@ -203,6 +203,18 @@ class M:
         g.robust_neg = z3.Or([lift(x) > lift(y) + z3.RealVal("1/20") * (1 + _zabs(lift(y))) for x, y in zip(a.ravel(), b.ravel())])
         return g
 
+    def close(self, a, b, rel=1e-12):
+        """|a - b| <= rel * |b| element-wise (float mode: rel is floored at the float tolerance of the mode)"""
+        if self.mode == "float":
+            a = np.asarray(a, dtype=float); b = np.asarray(b, dtype=float)
+            return bool(np.all(np.abs(a - b) <= max(rel, self.tol) * np.abs(b) + 1e-300))
+        a = np.asarray(a, dtype=object); b = np.asarray(b, dtype=object)
+        a, b = np.broadcast_arrays(a, b)
+        r = symnp.rat(fractions.Fraction(rel))
+        g = SBR(z3.And([z3.And(lift(x) - lift(y) <= r * _zabs(lift(y)), lift(y) - lift(x) <= r * _zabs(lift(y))) for x, y in zip(a.ravel(), b.ravel())]))
+        g.robust_neg = z3.Or([_zabs(lift(x) - lift(y)) > z3.RealVal("1/100") * (1 + _zabs(lift(y))) for x, y in zip(a.ravel(), b.ravel())])
+        return g
+
     def conj(self, *gs):
         if self.mode == "float":
             return all(bool(g) for g in gs)
@@ -258,6 +270,32 @@ def split_goal(g):
             g, hyps = g
     hyps = [h.t if isinstance(h, SB) else h for h in hyps]
     return g, hyps, opts
+
+
+def _parts(g):
+    """split a goal into independently provable conjuncts:  And(..) and  h => And(..)"""
+    if z3.is_and(g):
+        out = []
+        for c in g.children():
+            out.extend(_parts(c))
+        return out
+    if z3.is_implies(g) and z3.is_and(g.arg(1)):
+        return [z3.Implies(g.arg(0), c) for c in _parts(g.arg(1))]
+    return [g]
+
+
+def prove_split(eng, gt, hyps, pc_upto=None):
+    parts = _parts(gt)
+    if len(parts) <= 1:
+        return eng.prove(gt, extra=hyps, pc_upto=pc_upto)
+    worst = "unsat"
+    for p_ in parts:
+        v, model = eng.prove(p_, extra=hyps, pc_upto=pc_upto)
+        if v == "sat":
+            return v, model
+        if v != "unsat":
+            worst = v
+    return worst, None
 
 
 def run_case(prop_id, name, body, kwargs, patches, *, timeout_ms=30000, max_paths=20000, n_validate=2, seed=0,
@@ -319,7 +357,7 @@ def run_case(prop_id, name, body, kwargs, patches, *, timeout_ms=30000, max_path
                         if len(res["samples"]) < 2:
                             res["samples"].append(dict(case=name, label=label, obligation=_goal_str(simp)))
                     _t = time.time()
-                    verdict, model = eng.prove(gt, extra=hyps, pc_upto=gopts.get("pc_upto"))
+                    verdict, model = prove_split(eng, gt, hyps, gopts.get("pc_upto"))
                     res.setdefault("slow", []).append((round(time.time() - _t, 2), label))
                     if verdict == "unsat":
                         res["unsat"] += 1
